@@ -6,6 +6,7 @@ import (
 	"fmt"
 	"go/token"
 	"go/types"
+	"sort"
 	"strings"
 
 	"golang.org/x/tools/go/ssa"
@@ -15,10 +16,11 @@ func init() {
 	property("C07",
 		"Static conformance of the structural part of format(): (a) conservation — in the main loop of FormatText every non-break word is written to the current line exactly once on every path, every reset of the current line is preceded by flushing it to the output, a break word flushes the line, writes one break code and one newline, the final line is flushed after the loop, and nothing but the word, a single space, the line content, the break codes and the newline byte is ever written; (b) break discipline shape — the automatic break (\\N) and the wrap choose between \\n and \\l by the same predicate over (current line number, numLines), the line number is incremented on every line end and reset by a paragraph break; (c) parameter binding — each named format() parameter reaches the FormatText parameter of the same meaning, font-config fallbacks read the field of the same name under the font id that is passed to FormatText. NOT decided (runtime arithmetic): that every line fits maxLineLength, that a word moves only when it does not fit, cursor-overlap accounting, and getNextWord's tokenisation.",
 		[]string{"pixel-width arithmetic and getNextWord tokenisation are not decided (DESIGN §6)", "go/ssa lowering is faithful to the source"},
-		"C07.a", "C07.b", "C07.c", "C07.d", "C07.e", "C06.b", "C09.b")
+		"C07.a", "C07.b", "C07.c", "C07.d", "C07.e", "C07.f", "C06.b", "C09.b", "C17.f")
 
 	register(&Rule{ID: "C07.d", Doc: "formatting is a function of (text, font table, parameters): the formatter writes no state; depth counters of the word scanner cannot go negative", Floor: 3, Run: c07d})
 	register(&Rule{ID: "C07.e", Doc: "a width is what the font table says for the glyph when it lists it (also when that is 0), else the font's default, else the fallback: presence decided by the comma-ok bit; cursor room reserved exactly on lines that show the prompt", Floor: 3, Run: c07e})
+	register(&Rule{ID: "C07.f", Doc: "break-code vocabulary: the predicates the layout rules are stated with mean what their names say", Floor: 4, Run: c07f})
 	register(&Rule{ID: "C07.a", Doc: "FormatText conservation: words written once, flush before reset, final flush, who-writes-what", Floor: 10, Run: c07a})
 	register(&Rule{ID: "C07.b", Doc: "break choice predicate agrees at both sites; line counter discipline", Floor: 4, Run: c07b})
 	register(&Rule{ID: "C07.c", Doc: "format() parameter binding and font-config fallbacks", Floor: 8, Run: c07c})
@@ -734,5 +736,70 @@ func c07e(c *Ctx) {
 			c.Check(dnfEquiv(rel, want), "cursor-room/condition", pos, "cursor room is reserved exactly when a next word exists and (the line is the last of the box or the next word is a paragraph break)", "the cursor overlap is added under ["+pretty(rel.String())+"], expected exactly (next word exists) && (last line of the box || next word is \\p): a line that shows the prompt could exceed the width, or a word could wrap although it fits")
 		})
 		c.Check(n == 1, "cursor-room/site", c.W.FuncPos(fn), "one place adds the cursor overlap to the projected width", fmt.Sprintf("found %d additions of cursorOverlapWidth, expected 1", n))
+	}
+}
+
+// c07f: the layout rules (C07.a, C07.b, C07.e) are stated in terms of isLineBreak /
+// isParagraphBreak / isAutoLineBreak / shouldUseLineFeed, which the path conditions keep as
+// opaque vocabulary. Their definitions are checked here, as sets: a word is a break code iff
+// it is one of \n \l \p \N; the paragraph break is \p; the automatic break is \N; the line
+// feed is used from the last line of the box on (line number >= numLines-1).
+func c07f(c *Ctx) {
+	sets := []struct {
+		fn   string
+		want []string
+		what string
+	}{
+		{"parser.FontConfig.isLineBreak", []string{`\N`, `\l`, `\n`, `\p`}, `a word is a break code iff it is \n, \l, \p or \N`},
+		{"parser.FontConfig.isParagraphBreak", []string{`\p`}, `the paragraph break is \p`},
+		{"parser.FontConfig.isAutoLineBreak", []string{`\N`}, `the automatic break is \N`},
+	}
+	for _, s := range sets {
+		fn := c.Fn(s.fn)
+		if fn == nil {
+			continue
+		}
+		sum := c.PC(fn).boolSummaryAny(fn)
+		pos := c.W.FuncPos(fn)
+		if sum == nil {
+			c.Unk(fn.Name()+"/definition", pos, "cannot summarise "+fn.Name())
+			continue
+		}
+		var wantCs [][]string
+		for _, w := range s.want {
+			wantCs = append(wantCs, []string{fmt.Sprintf("+($1 == %q)", w)})
+		}
+		want := mkDNF(wantCs...)
+		got := dnf{cs: sum.pos}
+		gotNeg := dnf{cs: sum.neg}
+		// the words that matter: every constant the definition or the expectation mentions, and one other word
+		vals := map[string]bool{"@other": true}
+		for _, at := range dnfAtoms(got, want) {
+			if strings.HasPrefix(at, `($1 == "`) && strings.HasSuffix(at, `")`) {
+				vals[strings.TrimSuffix(strings.TrimPrefix(at, `($1 == "`), `")`)] = true
+			}
+		}
+		var dom []string
+		for v := range vals {
+			dom = append(dom, v)
+		}
+		sort.Strings(dom)
+		domains := map[string][]string{"$1": dom}
+		ok := dnfEquivDomain(got, want, domains) && dnfEquivDomain(orDNF(got, gotNeg), mkDNF([]string{}), domains) && dnfEquivDomain(andDNF(got, gotNeg), dnf{}, domains)
+		c.Check(ok, fn.Name()+"/definition", pos, s.what, fmt.Sprintf("%s is true under %s, expected exactly for the words %q", fn.Name(), got.String(), s.want))
+	}
+	if fn := c.Fn("parser.FontConfig.shouldUseLineFeed"); fn != nil {
+		sum := c.PC(fn).boolSummaryAny(fn)
+		ok := sum != nil && len(sum.pos) == 1 && len(sum.pos[0]) == 1 && len(sum.neg) == 1 && len(sum.neg[0]) == 1
+		if ok {
+			// curLineNum >= numLines-1, in either spelling
+			p0, n0 := sum.pos[0][0], sum.neg[0][0]
+			ok = (p0 == "+($2-1 <= $1)" && n0 == "-($2-1 <= $1)") || (p0 == "-"+ltTerm("$1", "$2-1") && n0 == "+"+ltTerm("$1", "$2-1"))
+		}
+		got := ""
+		if sum != nil {
+			got = fmt.Sprint(sum.pos)
+		}
+		c.Check(ok, "shouldUseLineFeed/definition", c.W.FuncPos(fn), `\l is used from the last line of the box on: line number >= numLines-1`, "shouldUseLineFeed is true under "+got+", expected exactly curLineNum >= numLines-1")
 	}
 }
